@@ -166,15 +166,19 @@ class BaseMetricLearner(BaseEstimator, metaclass=ABCMeta):
     self._check_preprocessor()
 
     check_is_fitted(self, ['preprocessor_'])
-    # the algorithms take differences of points: integer data is converted
-    # to floats (unsigned or narrow integers would wrap around)
-    kwargs.setdefault('dtype', [np.float64, np.float32])
     outs = check_input(X, y,
                        type_of_inputs=type_of_inputs,
                        preprocessor=self.preprocessor_,
                        estimator=self,
                        tuple_size=getattr(self, '_tuple_size', None),
                        **kwargs)
+    # the algorithms take differences of points: integer data is converted
+    # to floats (unsigned or narrow integers would wrap around)
+    if (outs if y is None else outs[0]).dtype.kind in 'iub':
+      if y is None:
+        outs = outs.astype(float)
+      else:
+        outs = (outs[0].astype(float),) + tuple(outs[1:])
     # Conform to SLEP010
     self.n_features_in_ = (outs if y is None else outs[0]).shape[-1]
     return outs
@@ -388,8 +392,10 @@ class MahalanobisMixin(BaseMetricLearner, MetricTransformer,
     check_is_fitted(self, ['preprocessor_'])
     pairs = check_input(pairs, type_of_inputs='tuples',
                         preprocessor=self.preprocessor_,
-                        estimator=self, tuple_size=2,
-                        dtype=[np.float64, np.float32])
+                        estimator=self, tuple_size=2)
+    if pairs.dtype.kind in 'iub':
+      # (unsigned or narrow integers would wrap around in the difference)
+      pairs = pairs.astype(float)
     pairwise_diffs = self.transform(pairs[:, 1, :] - pairs[:, 0, :])
     # (for MahalanobisMixin, the embedding is linear so we can just embed the
     # difference)
